@@ -242,10 +242,11 @@ def random_pops(rng, stream=None):
 
 
 def impl_iops(case):
-    """histories with ONE live iterator kept across other calls: 6 = it = iter(parser), 7 = next(it) (None when it stops)"""
+    """histories with live iterators kept across other calls: 6 = a new iterator iter(parser), 7 = next() on the newest one (None when it
+    stops), 8 k = next() on the k-th one created"""
     import mido
     p = mido.Parser()
-    out, fed, got, fail, it = [], [], [], None, None
+    out, fed, got, fail, its = [], [], [], None, []
     i = 0
     try:
         while i < len(case):
@@ -266,13 +267,17 @@ def impl_iops(case):
             elif k == 5:
                 ms = list(itertools.islice(iter(p), case[i + 1])); out += [3] + msgs_out(ms); got += ms; i += 2
             elif k == 6:
-                it = iter(p); out += [0]; i += 1
+                its.append(iter(p)); out += [0]; i += 1
             else:
-                i += 1
+                if k == 7:
+                    it = its[-1] if its else None
+                    i += 1
+                else:
+                    it = its[case[i + 1]] if case[i + 1] < len(its) else None
+                    i += 2
                 if it is None:
                     out += [1, 0]
                 else:
-                    pend = p.pending()
                     try:
                         m = next(it)
                         out += [1, 1] + canon.msg_ints(m); got.append(m)
@@ -283,16 +288,16 @@ def impl_iops(case):
         if fail is None:
             want = mido.parser.parse_all(fed)
             if msgs_out(want) != msgs_out(got + rest):
-                fail = ('fifo', 'history %r with a live iterator: retrieved+pending = %r but parse_all of the fed bytes = %r' % (case, got + rest, want))
+                fail = ('fifo', 'history %r with live iterators: retrieved+pending = %r but parse_all of the fed bytes = %r' % (case, got + rest, want))
     except Exception as e:  # noqa: BLE001
         out = [-1, core.exn_code(e)]
-        fail = ('raises:' + type(e).__name__, 'history %r with a live iterator raised %r' % (case, e))
+        fail = ('raises:' + type(e).__name__, 'history %r with live iterators raised %r' % (case, e))
     return out, fail, 'iops'
 
 
 def random_iops(rng):
     stream = random_stream(rng, 40)
-    case, i = [], 0
+    case, i, nit = [], 0, 0
     while i < len(stream) or rng.random() < 0.4:
         r = rng.random()
         if i < len(stream) and r < 0.3:
@@ -310,9 +315,11 @@ def random_iops(rng):
         elif r < 0.66:
             case += [5, rng.randrange(0, 3)]
         elif r < 0.74:
-            case += [6]
-        else:
+            case += [6]; nit += 1
+        elif r < 0.87:
             case += [7]
+        else:
+            case += [8, rng.randrange(0, nit + 1)]      # any iterator created so far (or one that does not exist yet: no effect)
     return case
 
 
